@@ -36,6 +36,17 @@ CHECKS['C04'] = dict(
     design_ref='DESIGN.md section 6, C04',
     technique='Coq proof (compositional drain law by induction on buffer length) + in-Coq correspondence with FrameParser/TransportTCP')
 
+CHECKS['C03'] = dict(
+    text='Theorems for every fragmentable frame value, every metadata/data byte string, every size >= 64 and both framings '
+         '(props/C03.v): fragments carry exactly the content in order; first keeps type and request-n, rest are PAYLOAD; FOLLOWS on '
+         'all but the last, COMPLETE only on the last; all metadata before data; every non-final fragment is full, so a frame that '
+         'fits is one frame; the receiver reassembles the original frame and its cache is empty again. The size clause is refuted '
+         'for the code as it is (witness theorem, known finding KF-C03-md-length-field) and replaced by the exact bound size+3 / '
+         'size without metadata. Tied to frame_fragmenter.py / frame.py / frame_fragment_cache.py by regenerated tables and an '
+         'in-Coq correspondence over a boundary grid and random lengths (thorough: exhaustive oracle window).',
+    design_ref='DESIGN.md section 6, C03',
+    technique='Coq proof (phase lemmas by induction on fuel, cache invariant) + in-Coq correspondence with the fragmenter and FrameFragmentCache')
+
 NOT_YET = {}
 
 def main():
